@@ -82,6 +82,18 @@ WITH RECURSIVE all_products(current, kind, label) AS (
 UPDATE node SET detached = ? WHERE i IN (SELECT current FROM all_products)
 """
 
+# Follow product -> creator links upward from a given node, the node itself included.
+# UNION instead of UNION ALL, so the walk also ends when the stored chain is not a tree.
+SELECT_CREATOR_CHAIN = """
+WITH RECURSIVE chain(current) AS (
+    SELECT ?
+    UNION
+    SELECT node.creator FROM node INNER JOIN chain ON node.i = chain.current
+    WHERE node.creator IS NOT NULL
+)
+SELECT current FROM chain
+"""
+
 # Recursively find all nodes reachable from a given node by following creator -> product edges,
 # including the given node itself,
 # then report every node whose detached flag disagrees with that reachability.
@@ -460,11 +472,14 @@ class Node:
             If the node is not detached.
         TypeError
             If `new_creator` is not an instance of `Node`.
+        CyclicError
+            If `new_creator` is this node or one of its (indirect) products.
         """
         if not self.is_detached():
             raise ValueError("Node.reattach can only be called on a detached node.")
         if not isinstance(new_creator, Node):
             raise TypeError(f"Argument new_creator must be a Node, got {type(new_creator)}")
+        self.check_creator_acyclic(new_creator)
         detached = new_creator.is_detached()
         old_creator, old_creator_detached = self.creator_and_detached()
         self.db.execute(
@@ -477,6 +492,26 @@ class Node:
             old_creator.after_lost_product()
         # Propagate the inherited detached property to all product nodes.
         self.db.execute(RECURSIVELY_SET_DETACHED, (self.i, detached))
+
+    def check_creator_acyclic(self, new_creator: "Node") -> None:
+        """Verify that a node can become the creator of this node without closing a creator cycle.
+
+        A detached step that is still running can (re)define any detached node,
+        including itself and the steps that created it.
+        Accepting that would turn the provenance tree into a cycle,
+        which nothing can reach or delete and which recursive queries cannot walk.
+
+        Raises
+        ------
+        CyclicError
+            If `new_creator` is this node or one of its (indirect) products.
+        """
+        cur = self.db.execute(SELECT_CREATOR_CHAIN, (new_creator.i,))
+        if any(row[0] == self.i for row in cur):
+            raise CyclicError(
+                f"Node ({self.key()}) cannot be created by ({new_creator.key()}), "
+                "which is the node itself or one of its own products."
+            )
 
     def check_sources_acyclic(self, source_is: Iterable[int]) -> None:
         """Verify that several new source edges can be added without introducing a cycle.
@@ -859,6 +894,10 @@ class Trellis:
             if not detached:
                 raise ConsistencyError(f"Node ({node.key()}) already exists and is not detached.")
 
+            # A node cannot create itself. Its products are cut loose below,
+            # so they can take over as its creator without closing a cycle.
+            if creator is not None and creator.i == node.i:
+                raise CyclicError(f"Node ({node.key()}) cannot be created by itself.")
             # Get the old creator before this information is lost.
             old_creator, old_creator_detached = node.creator_and_detached()
             # Replace the old creator by the new one.
